@@ -176,6 +176,9 @@ def gen_case(rng, src, tgt):
     if (src, tgt) == ("o2j", "bms"):
         case["move_right_by"] = rng.choice((None, 0))  # None: the default call
         shift = 1 if case["move_right_by"] is None else 0
+    elif src in ("osu", "qua") and tgt == "bms" and rng.random() < 0.3:
+        case["move_right_by"] = 1  # the explicit shift argument of OsuToBMS / QuaToBMS (default 0)
+        shift = 1
     kmax = max(c["keys"] for c in score["charts"])
     if src == "bms":
         case["layout"] = _layout_for(rng, kmax)
@@ -240,7 +243,8 @@ def build_osu(case):
     spec.update(bg="bg.png", samples=[], pad=False)
     tps = []
     for b, v in sc.tempo:
-        tps.append(dict(t=_t_out(sc.ms(b), False), bl=repr(60000.0 / float(v)), meter=4, ss=rs.randrange(4), si=0, vol=rs.choice((60, 100)), un=1, eff=rs.choice((0, 1))))
+        # the meter field of a timing point does not move anything in time: any value denotes the same timeline
+        tps.append(dict(t=_t_out(sc.ms(b), False), bl=repr(60000.0 / float(v)), meter=rs.choice((4, 4, 4, 3, 5, 7)), ss=rs.randrange(4), si=0, vol=rs.choice((60, 100)), un=1, eff=rs.choice((0, 1))))
     if rs.random() < 0.5:  # a scroll-speed line: no tempo
         tps.append(dict(t=_t_out(sc.ms(Fraction(1)), False), bl=repr(-100.0 / rs.choice((0.5, 2.0, 1.25))), meter=4, ss=0, si=0, vol=100, un=0, eff=0))
     objs = []
@@ -659,6 +663,8 @@ def compare(case, want, got):
     """[(clause, detail)] of objects / columns / hold_lengths / tempo_timeline for one chart."""
     src, tgt = case["src"], case["tgt"]
     shift = 1 if (src, tgt) == ("o2j", "bms") and case.get("move_right_by") is None else 0
+    if src in ("osu", "qua") and tgt == "bms" and case.get("move_right_by"):
+        shift = case["move_right_by"]
     base = min(t for t, _ in want["tempo"]) if tgt == "bms" else 0.0  # BMS: no offset field, times from the first measure line
     W = dict(objs=[(k, c + shift, t - base, e - base) for k, c, t, e in want["objs"]], tempo=[(t - base, v) for t, v in want["tempo"]])
     tol = Tolerance(src, tgt, W["tempo"])
